@@ -40,37 +40,37 @@ CLAIMS = {
             "§5 C08, §11.3", "error-edge path analysis over MIR"),
     "C09": ("LCK-3 no re-entrant DB-mutex acquisition, LCK-4/LCK-4b waits in re-testing loops that leave on the sticky error, LCK-5/LCK-6 nested "
             "lock classes, ORD-10 worker epilogue, PAIR-4 schedule flag, ORD-11 writer hand-off, ORD-12 Drop order, PAIR-10, ORD-17, GRD-14 "
-            "non-empty manual compaction inputs, ORD-19 manual request withdrawn only after the background work finished, GRD-25, PAIR-16, GRD-9 non-blocking lock", "§5 C09, §11.3", "lock-region dataflow + call-graph summaries + must-pass-through"),
+            "non-empty manual compaction inputs, ORD-19 manual request withdrawn only after the background work finished, GRD-25, PAIR-16, GRD-9 non-blocking lock, TRIG-1 a writer stalled for level-0 relief has a due compaction (evaluated trigger constants)", "§5 C09, §11.3", "lock-region dataflow + call-graph summaries + must-pass-through"),
     "C10": ("ROLE-1 smallest/largest fidelity, ROLE-2 writer/reader field-order agreement of the manifest codec, ROLE-3 levels, ROLE-5 version "
             "builder ordering and deletion, PAIR-3, PAIR-12 (file, level) pairs, OWN-8 file-number counter, ERR-1 subset / ORD-3 / GRD-4 for "
             "half-written tables", "§5 C10, §11.3", "role-colour dataflow"),
     "C11": ("GRD-5 deletion guards, OWN-4 who may delete, ORD-13 pending outputs registered from before the build until after the install, "
             "ORD-16 GC on every open and the recovery edit names the current WAL, ROLE-4 WAL numbers in edits, PAIR-1 version pins released, "
-            "cache eviction before delete, GRD-24 / GRD-26 manifest re-use bookkeeping, ORD-18 collect after releasing the inputs", "§5 C11, §11.3", "control-dependence guards + who-may-call + pairing on flag-sensitive paths"),
+            "cache eviction before delete, GRD-24 / GRD-26 manifest re-use bookkeeping, ORD-18 collect after releasing the inputs, ORD-18b (client iterator clean-up; known finding D22), LST-1 / LIST-1 / OWN-12 version list", "§5 C11, §11.3", "control-dependence guards + who-may-call + pairing on flag-sensitive paths"),
     "C12": ("TS-1 fragment reassembly typestate (incl. dropped fragments), TS-2 writer-side fragment typing and chunking, GRD-6 end-of-log only "
-            "on UnexpectedEof / cursor at length, GRD-11 block offset on reopen and writer/reader trailer agreement, GRD-6 error kind examined before any exit / a parsed fragment is returned, AGR-2 codec agreement of the fragment header", "§5 C12, §11.3",
+            "on UnexpectedEof / cursor at length, GRD-11 block offset on reopen and writer/reader trailer agreement, GRD-6 error kind examined before any exit / a parsed fragment is returned, AGR-2 codec agreement of the fragment header, ORD-22 writer offset after the write, ORD-23 reader position follows the file cursor, ENUM-1 fragment-type decoder", "§5 C12, §11.3",
             "typestate automaton over MIR CFG"),
     "C13": ("VERD-1 lookup verdicts of Table::get, GRD-7 filter miss is control-dependent on key_may_match == false, PAIR-7 two-level direction, "
-            "PAIR-11 re-loaded child positioned, PAIR-5 filter population and offsets, KEY-1, AGR-2 writer/reader integer codecs of every table structure, GRD-27 separator strictly below the next key, ORD-20", "§5 C13, §11.3", "verdict discipline"),
+            "PAIR-11 re-loaded child positioned, PAIR-5 filter population and offsets, KEY-1, AGR-2 writer/reader integer codecs of every table structure, GRD-27 separator strictly below the next key, ORD-20, BSRCH-1 BlockIter::seek is a lower-bound search, BLK-1 block cursor discipline, SRC-3, WRAP-1, ENUM-1", "§5 C13, §11.3", "verdict discipline"),
     "C14": ("PAIR-5/PAIR-5b filter population paired with data-block entries and unconditional in the filter builder, AGR-1 Bloom writer/reader "
             "probe-sequence agreement and probe count from the filter, GRD-8 fail-open filter reader, GRD-15 filter block belongs to the "
             "configured policy, GRD-7", "§5 C14, §11.3", "pairing + guards + sibling agreement"),
     "C15": ("ORD-14 verify checksum/magic before parse, OWN-5 parsers fed only by verified bytes, COV-1 checksum coverage, MAN-1 strict manifest "
-            "reader, TS-1, ERR-1, ERR-2, ERR-3 / ERR-4 iterator errors reach the caller", "§5 C15, §11.3", "success-edge dominance + who-may-call + data dependence"),
+            "reader, TS-1, ERR-1, ERR-2, ERR-3 / ERR-4 iterator errors reach the caller, ORD-23 a damaged fragment does not misalign the log reader, GRD-6 end-of-log only from a short read, GRD-34, ENUM-1", "§5 C15, §11.3", "success-edge dominance + who-may-call + data dependence"),
     "C16": ("GRD-6 torn header/payload maps to end-of-log whatever is being reassembled, TS-1, OWN-7 log create modes, GRD-11, GRD-12 reuse only "
             "completely consumed logs and the consumed-bytes cursor counts complete reads only", "§5 C16, §11.3", "typestate + guards"),
     "C17": ("ORD-15 lock_file before recovery/any mutation in open and destroy_database and held while data is removed, OWN-6 db_lock written "
-            "only by open and Drop, GRD-9 non-blocking exclusive lock kind that never unlinks the lock file, ORD-12", "§5 C17, §11.3",
+            "only by open and Drop, OWN-6b, GRD-9 non-blocking exclusive lock kind that never unlinks the lock file, ORD-12, ORD-15 destroy_database unlinks LOCK while still holding the lock (D20), PAIR-4, FS-2", "§5 C17, §11.3",
             "success-edge dominance + who-may-write"),
 }
 
 _B = {
-    "read": "read-path bundle (KEY-1, VERD-1, GRD-3, GRD-13, SRC-1/2, OWN-10/11, filter bundle PAIR-5/5b, AGR-1, GRD-8, GRD-15, GRD-7)",
+    "read": "read-path bundle (KEY-1, VERD-1/VERD-2, GRD-3, GRD-13, SRC-1/2/3, WRAP-1, OWN-10/11, ORD-21, LVL-1, ATOM-1, AGR-2, GRD-27, PAIR-13, BSRCH-1 lower-bound binary searches, BLK-1 block cursor, MRG-1 merge selection, ENUM-1 tag decoders, filter bundle PAIR-5/5b, AGR-1, GRD-8, GRD-15, GRD-7)",
     "retain": "retention bundle (GRD-2, ORD-7, GRD-10, GRD-14, GRD-19, GRD-17, PAIR-9, ACC-1, ORD-3)",
-    "live": "liveness bundle (GRD-5, PAIR-1, cache eviction)",
-    "recover": "recovery bundle (GRD-1, ORD-6, ORD-8c, ROLE-4, GRD-11, GRD-12, TS-1, GRD-6, FS-1, GRD-22)",
+    "live": "liveness bundle (GRD-5, PAIR-1, OWN-12, ORD-13, LIST-1, LST-1 link repairs of the version / snapshot list, cache eviction)",
+    "recover": "recovery bundle (GRD-1, ORD-6, ORD-8c, ROLE-4, GRD-11, GRD-12, TS-1, GRD-6 incl. eof-only-from-a-short-read, ORD-23 reader position follows the file, FS-1/FS-2/FS-3, GRD-22, GRD-26/28/31/33/34/36, AGR-2/AGR-3, PAIR-17, ENUM-1, ERR-1 recovery subset)",
     "filter": "filter bundle (PAIR-5/5b, AGR-1, GRD-8, GRD-15, GRD-7)",
-    "nopanic": "assertion bundle (PAIR-9, GRD-16, ROLE-5, GRD-14 non-empty, PAIR-10, ORD-17)",
+    "nopanic": "assertion bundle (PAIR-9, GRD-16, ROLE-5, OWN-13, GRD-35, GRD-14 non-empty, PAIR-10, ORD-17, GRD-22/23/25, PAIR-14, ORD-20, GRD-32)",
 }
 _USE = {"C01": ["read", "retain", "live", "recover"], "C03": ["read", "retain", "live"], "C04": ["read", "retain", "live"],
         "C05": ["read", "retain", "live"], "C06": ["read", "retain", "live", "recover"], "C07": ["read", "retain", "live"],
